@@ -445,6 +445,13 @@ def family_cases(ctx):
     add("golabel", {"prog.thrift": 'struct S { 1: optional i32 a (go.label = "alpha"), 2: optional i32 b (go.label = "beta") }\n'})
     add("golabel-clash", {"prog.thrift": 'struct S { 1: optional i32 a (go.label = "x"), 2: optional i32 b (go.label = "x") }\n'}, expect="any")
     add("golabel-quote", {"prog.thrift": 'struct S { 1: optional i32 a (go.label = "has\\"quote") }\nenum E { A (go.label = "has\\"quote") }\n'}, expect="any")
+    # a typedef named like the included enum (or struct) it stands for: constants and defaults of the typedef type written as
+    # items of the enum are values of ANOTHER Go type and need the conversion
+    add("alias-named-like-included-enum", {"prog.thrift": 'include "./common/colors.thrift"\ntypedef colors.Color Color\ntypedef colors.Box Box\n'
+                                                          'const Color DEFAULT_COLOR = colors.Color.GREEN\nconst list<Color> ALL = [colors.Color.RED, 2]\n'
+                                                          'const map<Color, Color> NEXT = {colors.Color.RED: colors.Color.GREEN}\n'
+                                                          'struct Bucket { 1: optional Color color = colors.Color.RED, 2: required Color second = 2, 3: optional Box box = {"w": 1} }\n',
+                                           "common/colors.thrift": "enum Color { RED = 1, GREEN = 2 }\nstruct Box { 1: optional i32 w }\n"})
     add("gotype-slice", {"prog.thrift": 'struct S { 1: optional set<string> (go.type = "slice") a, 2: optional set<P> (go.type = "slice") b = [{"x": 1}] }\n'
                                         'struct P { 1: optional i32 x }\ntypedef set<binary> (go.type = "slice") BS\nstruct Q { 1: optional BS bs }\n'})
     add("redact", {"prog.thrift": 'struct S { 1: optional string a (go.redact), 2: required list<string> b (go.redact), 3: optional P p (go.nolog) }\n'
